@@ -26,7 +26,7 @@ class Check(RecordingCheck):
     module = "Props.C03"
     theorems = ["C03_shallow_hit_sound_fixed", "C03_invariant_fixed", "C03_rows_all_or_nothing_partial",
                 "C03_refuted_retry", "C03_refuted_crash", "C03_refuted_import", "C03_refuted_cse",
-                "C03_shallow_hit_sound_mixed_partial", "C03_mixed_old_witnesses_closed", "C03_refuted_mixed", "C03_nonvacuous"]
+                "C03_shallow_hit_sound_mixed_partial", "C03_mixed_old_witnesses_closed", "C03_refuted_mixed", "C03_refuted_guarded", "C03_nonvacuous"]
     rule = ("operation scripts: random call trees (0-2 children, recorded or not, 0-3 arguments over a 6-value pool), "
             "re-recordings, imports, commit fates (none / one or several OperationalErrors / crash) at random commit "
             "indices, lookups under the full registry and with one subtree task removed; non-trivial = has a fault or "
@@ -62,7 +62,8 @@ class Check(RecordingCheck):
                         K_NOFAULT, f"workload {name}, no fault: after editing leaf the run returns "
                         f"{o['edited'][1]!r}, a fresh backend {o['expected_edited'][1]!r}", {"kind": "e2e", "workload": name, "plan": []}))
             # noprov*: children with prov=False, record_call_node records their Task values itself (nested commits)
-            names = ["chain", "noprov0", "noprov1"] if self.tier == "quick" else list(rl.MODELLED_WORKLOADS + rl.NOPROV_WORKLOADS)
+            n += self.oracle_histories(work)
+            names = ["chain", "noprov0"] if self.tier == "quick" else list(rl.MODELLED_WORKLOADS + rl.NOPROV_WORKLOADS)
             for name in names:
                 db = rl.fresh_db(str(work), "probe.db")
                 _, _, log, s = rl.sched_run(name, rl.LEAF_V1[name], db)
@@ -102,6 +103,66 @@ class Check(RecordingCheck):
         if self.variant == "fixed" and [f for f in self.findings if f.key in known]:
             # the code claims the repaired configuration but a witness still reproduces
             self.ob("oracle", "repaired configuration: no witness reproduces", False, "; ".join(f.key for f in self.findings[:5]))
+
+    # ------------------------------------------------------------------ generated edit histories (no fault)
+    def history_cases(self):
+        demo = rl.Program.demo()
+        cases = [(demo, [3, 2]), (demo, [2, 3]), (demo, [3, 1, 2])]
+        for _ in range(6 if self.tier == "quick" else 80):
+            prog = rl.Program.random(self.rng)
+            k = self.rng.randint(2, min(4, prog.n))
+            order = self.rng.random()
+            tasks = self.rng.sample(range(prog.n), k)
+            if order < 0.5:
+                # a task outside the subtree of the deepest chosen one first, deep descendants last
+                tasks.sort(key=lambda i: len(prog.descendants(i)), reverse=(order < 0.1))
+                tasks = sorted(tasks, key=lambda i: (len(prog.descendants(i)) == 0, self.rng.random()))
+            cases.append((prog, tasks))
+        return cases
+
+    def run_history(self, prog, edits, work, tag):
+        """Runs t0(1), then one run after each edit (fresh Scheduler, same database); each run is compared with a run of
+        the same task versions on an empty database; the edited task must execute; every recorded call node's
+        CallSubtreeTask rows must cover the tasks of all call nodes reachable from it through CallEdges."""
+        db = rl.fresh_db(str(work), f"{tag}.db")
+        versions = [100 * (i + 1) for i in range(prog.n)]
+        problems = []
+        for step, e in enumerate([None] + list(edits)):
+            if e is not None:
+                versions[e] += 1
+            st, r, ex, s = rl.run_program(prog, versions, db)
+            incomplete = rl.subtree_oracle(s.backend)
+            rl.close_backend(s.backend)
+            fdb = rl.fresh_db(str(work), f"{tag}_f.db")
+            st0, r0, _, s0 = rl.run_program(prog, versions, fdb)
+            rl.close_backend(s0.backend)
+            os.unlink(fdb)
+            if (st, r) != (st0, r0):
+                problems.append(("stale-shallow-hit", f"run {step} (after editing t{e}) returns {r!r}, an empty database gives {r0!r}"))
+            elif e is not None and e not in ex:
+                problems.append(("edited-task-not-executed", f"run {step}: edited task t{e} did not execute (executed {ex})"))
+            if incomplete:
+                problems.append(("subtree-rows-incomplete", f"after run {step}: CallSubtreeTask rows miss tasks of recorded "
+                                                            f"descendants: {incomplete[:3]}"))
+            if problems:
+                break
+        os.unlink(db)
+        return problems
+
+    def oracle_histories(self, work):
+        n = 0
+        for prog, edits in self.history_cases():
+            problems = self.run_history(prog, edits, work, f"h{n}")
+            n += 1
+            self.stat("history_edits", len(edits))
+            self.stat("history_tasks", prog.n)
+            self.stat("history_shallow_tasks", sum(prog.shallow))
+            for cls, what in problems:
+                self.findings.append(Finding(
+                    f"no-fault:{cls}", f"program {prog.describe()}, edits {['t%d' % e for e in edits]}, no fault: {what}",
+                    {"kind": "history", "program": prog.describe(), "edits": list(edits)}))
+        self.stat("oracle", "edit_histories", n)
+        return n
 
     def witness_transient_and_crash(self, work):
         name = "chain"
@@ -195,6 +256,22 @@ class Check(RecordingCheck):
 
     def replay(self, doc):
         r = doc.get("replay", {})
+        if r.get("kind") == "history":
+            work = scratch_dir("rv_replay_")
+            cwd = os.getcwd()
+            os.chdir(work)
+            try:
+                prog = rl.Program(r["program"]["kids"], r["program"]["shallow"])
+                problems = self.run_history(prog, r["edits"], work, "replay")
+            finally:
+                os.chdir(cwd)
+                shutil.rmtree(work, ignore_errors=True)
+                rl.cleanup_template()
+                rl.cleanup_workloads()
+            for cls, what in problems:
+                print("replay:", cls, "-", what)
+            print("replay:", "still fails" if problems else "holds now")
+            return 1 if problems else 0
         if r.get("kind") == "import":
             work = scratch_dir("rv_replay_")
             cwd = os.getcwd()
